@@ -109,6 +109,8 @@ class InMemorySemantivaTransport(SemantivaTransport):
         self._queues: Dict[str, tuple[deque, threading.Lock]] = defaultdict(
             lambda: (deque(), threading.Lock())
         )
+        # Serialises the lazy creation of a channel's (queue, lock) pair
+        self._create_lock = threading.Lock()
         self._connected = False
 
     def connect(self) -> None:
@@ -148,7 +150,8 @@ class InMemorySemantivaTransport(SemantivaTransport):
         Returns:
             Future if require_ack=True, else None.
         """
-        q, lock = self._queues[channel]
+        with self._create_lock:
+            q, lock = self._queues[channel]
         msg = Message(
             data=data,
             context=context,
